@@ -2,10 +2,9 @@
 //! specification assigned (types compared as text after whitespace normalisation and renaming of type variables).
 use ide::{FileId, FilePos};
 use serde_json::{json, Value};
-use std::io::{BufRead, Write};
-use std::sync::atomic::{AtomicUsize, Ordering};
+use std::io::Write;
 use std::sync::{Arc, Mutex};
-use verif_harness::util::{catch, quiet_panics, Rng};
+use verif_harness::util::{catch, quiet_panics, CaseStream, Results, Rng};
 use verif_harness::workspace;
 
 const PRELUDE: &str = "pub type T { T(a: Int, b: String) }\npub type Box(x) { Box(inner: x) }\nfn id(x) { x }\nfn apply(x: a, f: fn(a) -> b) -> b { f(x) }\nfn map(l: List(a), f: fn(a) -> b) -> List(b) { case l { [] -> [] [h, ..t] -> [f(h), ..map(t, f)] } }\nfn add(a: Int, b: Int) -> Int { a + b }\nfn mk_ok(x: a, e: b) -> Result(a, b) { Ok(x) }\nfn mk_err(x: a, e: b) -> Result(a, b) { Error(e) }\npub type M { M(Int, key: String, value: Float) }\nfn wrap(item) { item }\nfn item() { wrap(1) }\n";
@@ -46,29 +45,66 @@ fn alpha(ty: &str) -> String {
     out
 }
 
+/// `fn name(P1, P2) -> R` split into (parameters, result) at the top level of the parameter list
+fn split_sig(sig: &str) -> Option<(Vec<String>, String)> {
+    let open = sig.find('(')?;
+    let (mut depth, mut start, mut params, mut close) = (0i32, open + 1, vec![], None);
+    for (i, c) in sig.char_indices().skip(open) {
+        match c {
+            '(' => depth += 1,
+            ')' => {
+                depth -= 1;
+                if depth == 0 {
+                    if !sig[start..i].trim().is_empty() { params.push(sig[start..i].trim().to_string()); }
+                    close = Some(i);
+                    break;
+                }
+            }
+            ',' if depth == 1 => {
+                params.push(sig[start..i].trim().to_string());
+                start = i + 1;
+            }
+            _ => {}
+        }
+    }
+    let rest = sig[close? + 1..].trim();
+    Some((params, rest.strip_prefix("->")?.trim().to_string()))
+}
+
+/// the displayed signature has the expected parameters in another order (and the expected result)
+fn is_param_permutation(expected: &str, got: &str) -> bool {
+    match (split_sig(expected), split_sig(got)) {
+        (Some((mut pe, re)), Some((mut pg, rg))) => {
+            if pe == pg || re != rg { return false; }
+            pe.sort();
+            pg.sort();
+            pe == pg
+        }
+        _ => false,
+    }
+}
+
 fn main() {
     quiet_panics();
     let args: Vec<String> = std::env::args().collect();
     let arg = |name: &str| args.iter().position(|a| a == name).and_then(|i| args.get(i + 1)).cloned();
     let threads: usize = arg("--threads").and_then(|s| s.parse().ok()).unwrap_or(16);
     let seed: u64 = std::env::var("VERIF_SEED").ok().and_then(|s| s.parse().ok()).unwrap_or(1);
-    let cases: Vec<Value> = std::io::stdin().lock().lines().filter_map(|l| {
-        let l = l.unwrap();
-        if l.trim().is_empty() { None } else { Some(serde_json::from_str(&l).expect("case json")) }
-    }).collect();
-    let cases = Arc::new(cases);
-    let next = Arc::new(AtomicUsize::new(0));
-    let results = Arc::new(Mutex::new(Vec::<Value>::new()));
+    // what hovering the prelude's functions must show: [{"name": .., "sig": ..}] (PreludeSigs of the specification)
+    let prelude_sigs: Vec<(String, String)> = arg("--prelude").map(|p| {
+        let v: Value = serde_json::from_str(&std::fs::read_to_string(&p).expect("prelude file")).expect("prelude json");
+        v.as_array().unwrap().iter().map(|e| (e["name"].as_str().unwrap().to_string(), e["sig"].as_str().unwrap().to_string())).collect()
+    }).unwrap_or_default();
+    let prelude_sigs = Arc::new(prelude_sigs);
+    let cases = CaseStream::stdin();
+    let results = Results::new(2);
     let totals = Arc::new(Mutex::new((0u64, 0u64, 0u64, Vec::<Value>::new(), 0u64)));
     let mut hs = vec![];
     for _ in 0..threads {
-        let (cases, next, results, totals) = (cases.clone(), next.clone(), results.clone(), totals.clone());
+        let (cases, results, totals, prelude_sigs) = (cases.clone(), results.clone(), totals.clone(), prelude_sigs.clone());
         hs.push(std::thread::Builder::new().stack_size(64 << 20).spawn(move || loop {
-            let ci = next.fetch_add(1, Ordering::Relaxed);
-            if ci >= cases.len() {
-                break;
-            }
-            let case = &cases[ci];
+            let Some((ci, case)) = cases.next() else { break };
+            let case = &case;
             let mut rng = Rng::new(seed ^ (ci as u64).wrapping_mul(40503));
             // split the token stream into functions, render them in a seeded order after (or before) the prelude
             let toks = case["out"].as_array().unwrap();
@@ -116,7 +152,12 @@ fn main() {
                 }
                 text.push('\n');
             }
+            let prelude_at = if prelude_first { 0 } else { text.len() };
             if !prelude_first { text.push_str(PRELUDE); }
+            for (name, sig) in prelude_sigs.iter() {
+                let off = PRELUDE.find(&format!("fn {name}(")).expect("prelude function") + 3;
+                probes.push((prelude_at + off, name.clone(), "prelude_fun".to_string(), sig.clone()));
+            }
             let mut local = vec![];
             let mut nprobe = 0u64;
             let mut nsig = 0u64;
@@ -131,7 +172,7 @@ fn main() {
                 // C19: function references, constructors and function-typed locals are highlighted, nothing else
                 {
                     let hl = a.syntax_highlight(FileId(0), None).unwrap();
-                    let binder_ty: std::collections::HashMap<&str, &str> = probes.iter().filter(|p| p.2 != "fun").map(|p| (p.1.as_str(), p.3.as_str())).collect();
+                    let binder_ty: std::collections::HashMap<&str, &str> = probes.iter().filter(|p| p.2 != "fun" && p.2 != "prelude_fun").map(|p| (p.1.as_str(), p.3.as_str())).collect();
                     for (k, (off, s, r)) in gtoks.iter().enumerate() {
                         let first = s.chars().next().unwrap_or(' ');
                         if !(first.is_ascii_alphabetic()) || r == "type" { continue; }
@@ -190,11 +231,12 @@ fn main() {
                 // coarse shape of expected / got for grouping
                 let shape = |s: &str| -> String { s.chars().filter(|c| !c.is_ascii_digit()).collect::<String>() };
                 let got_has_var = b["got"].as_str().map(|g| alpha(g).contains('\'')).unwrap_or(false);
+                let got_is_perm = match (b["expected"].as_str(), b["got"].as_str()) { (Some(e), Some(g)) => is_param_permutation(&alpha(e), &alpha(g)), _ => false };
                 let prop = if b["what"] == "highlight" { "C19" } else { "C09" };
-                local.push(json!({"kind": "mismatch", "prop": prop, "features": {"what": b["what"], "role": b["role"], "got_has_var": got_has_var,
+                local.push(json!({"kind": "mismatch", "prop": prop, "features": {"what": b["what"], "role": b["role"], "got_has_var": got_has_var, "got_is_perm": got_is_perm,
                     "no_hover": b["got"] == "<no hover>",
                     "expected": b["expected"].as_str().map(shape), "got": b["got"].as_str().map(shape)},
-                    "detail": {"case": c, "text": text, "bad": b}}));
+                    "detail": {"case": c, "text": text, "bad": b, "prelude": prelude_sigs.iter().map(|(n, s)| json!({"name": n, "sig": s})).collect::<Vec<_>>()}}));
             }
             let mut t = totals.lock().unwrap();
             t.0 += 1;
@@ -205,7 +247,7 @@ fn main() {
                 t.3.push(json!({"text": text.replace(PRELUDE, "<prelude>\n"), "expected": probes.iter().map(|p| json!([p.1, p.3])).collect::<Vec<_>>()}));
             }
             drop(t);
-            results.lock().unwrap().extend(local);
+            results.extend(local);
         }).unwrap());
     }
     for h in hs {
@@ -213,16 +255,7 @@ fn main() {
     }
     let so = std::io::stdout();
     let mut so = so.lock();
-    let res = results.lock().unwrap();
-    let mut per: std::collections::BTreeMap<String, usize> = Default::default();
-    for r in res.iter() {
-        let c = per.entry(r["features"].to_string()).or_default();
-        *c += 1;
-        if *c <= 2 {
-            writeln!(so, "{r}").unwrap();
-        }
-    }
+    let (counts, _) = results.emit(&mut so);
     let t = totals.lock().unwrap();
-    let counts: Vec<Value> = per.iter().map(|(k, v)| json!([k, v])).collect();
     writeln!(so, "{}", json!({"kind": "summary", "programs": t.0, "hovers": t.1, "signature_helps": t.4, "multi_function_programs": t.2, "samples": t.3, "mismatch_classes": counts})).unwrap();
 }
